@@ -47,8 +47,21 @@ Definition ChkPlJa (k : nat) (t : tree) (e : option text) : bool :=
   | Some txt => if pl_okb_ja t then clause_eqb (dec_prolog_ja txt) (option_map (fun v => (show_nat k, v)) (view_prolog_ja t)) && ja_table_ok else true
   | None => true
   end.
-Definition ChkPlDocEn (b : list (list tree)) (e : option text) : bool := otext_eqb_p (prolog_en_doc b) e.
-Definition ChkPlDocJa (b : list (list tree)) (e : option text) : bool := otext_eqb_p (prolog_ja_doc b) e.
+Fixpoint list_eqb_p {A : Type} (e : A -> A -> bool) (a b : list A) : bool :=
+  match a, b with [], [] => true | x :: a', y :: b' => e x y && list_eqb_p e a' b' | _, _ => false end.
+Definition doc_eqb (a b : option (list (text * view tok5))) : bool :=
+  match a, b with
+  | Some x, Some y => list_eqb_p (fun p q => text_eqb (fst p) (fst q) && view_eqb_p tok5_eqb_p (snd p) (snd q)) x y
+  | None, None => true
+  | _, _ => false
+  end.
+(* the model's document == the real one, and - when every tree is inside pl_okb_* - the model's document reader on the REAL text gives the records *)
+Definition ChkPlDocEn (b : list (list tree)) (e : option text) : bool :=
+  otext_eqb_p (prolog_en_doc b) e &&
+  match e with Some txt => if forallb (forallb pl_okb_en) b then doc_eqb (dec_prolog_doc dec_en txt) (doc_views view_prolog_en b) else true | None => true end.
+Definition ChkPlDocJa (b : list (list tree)) (e : option text) : bool :=
+  otext_eqb_p (prolog_ja_doc b) e &&
+  match e with Some txt => if forallb (forallb pl_okb_ja) b then doc_eqb (dec_prolog_doc dec_ja txt) (doc_views view_prolog_ja b) else true | None => true end.
 '''
 
 ERRORS = (KeyError, IndexError, AssertionError, AttributeError)
@@ -179,6 +192,11 @@ def special_trees(rng, lang, n):
                     t = Tree.make_unary(rng.choice(cats), t, rng.choice(['lex', 'tr']), '<un>')
             return t
         out.append(build(toks))
+    # category names beyond ASCII: a caseless script stays inside the model (str.lower leaves it alone), a cased non-ASCII letter is outside
+    # (tree_case returns None for it; the caller counts it)
+    for name in ('\u30ab', '\u732bx', '\u00c9a', 'S\u00c9'):
+        c = Category.parse(name)
+        out.append(Tree.make_unary(rng.choice(cats), Tree.make_terminal(gen.rand_token(rng, lang, False), c), 'lex' if lang == 'en' else 'ADNint', '<un>' if lang == 'en' else 'ADNint'))
     return out
 
 
